@@ -6,19 +6,21 @@ package engine
 
 // Config describes the container.
 type Config struct {
-	Refresh    string `json:"refresh"`            // none | manual | autoinj | autort
-	RateMs     int    `json:"rate_ms,omitempty"`  // autort: ticker period in ms
-	QueueLen   int    `json:"qlen"`               // heap manager queue length; -1 = library default
-	Width      int    `json:"width,omitempty"`    // WithWidth; 0 = not set
-	Pop        bool   `json:"pop,omitempty"`      // PopCompletedMode
-	PtyRows    int    `json:"pty_rows,omitempty"` // >0: output is a pty of this size
-	PtyCols    int    `json:"pty_cols,omitempty"`
-	Delay      bool   `json:"delay,omitempty"`       // WithRenderDelay, released by a "release" step
-	DelayNever bool   `json:"delay_never,omitempty"` // the render delay is never released, not even before Wait
-	Notifier   bool   `json:"notifier,omitempty"`    // WithShutdownNotifier
-	NoOutput   bool   `json:"no_output,omitempty"`
-	AlsoAuto   int    `json:"also_auto,omitempty"` // manual refresh only: WithAutoRefresh given too, 1 = before, 2 = after WithManualRefresh (manual refresh wins either way)
-	UserWG     bool   `json:"user_wg,omitempty"`   // WithWaitGroup: Wait also waits for a user wait group released ~1 ms after Wait was called
+	Refresh           string `json:"refresh"`            // none | manual | autoinj | autort
+	RateMs            int    `json:"rate_ms,omitempty"`  // autort: ticker period in ms
+	QueueLen          int    `json:"qlen"`               // heap manager queue length; -1 = library default
+	Width             int    `json:"width,omitempty"`    // WithWidth; 0 = not set
+	Pop               bool   `json:"pop,omitempty"`      // PopCompletedMode
+	PtyRows           int    `json:"pty_rows,omitempty"` // >0: output is a pty of this size
+	PtyCols           int    `json:"pty_cols,omitempty"`
+	Delay             bool   `json:"delay,omitempty"`               // WithRenderDelay, released by a "release" step
+	DelaySleepRelease bool   `json:"delay_sleep_release,omitempty"` // the epilogue's release of a pending delay is followed by a 25 ms pause instead of empty Writes
+	DelayNever        bool   `json:"delay_never,omitempty"`         // the render delay is never released, not even before Wait
+	Notifier          bool   `json:"notifier,omitempty"`            // WithShutdownNotifier
+	NoOutput          bool   `json:"no_output,omitempty"`
+	AlsoAuto          int    `json:"also_auto,omitempty"`          // manual refresh only: WithAutoRefresh given too, 1 = before, 2 = after WithManualRefresh (manual refresh wins either way)
+	UserWGUntilDone   bool   `json:"user_wg_until_done,omitempty"` // ...whose member only ends once the container is over (it polls Progress.Write until ErrDone)
+	UserWG            bool   `json:"user_wg,omitempty"`            // WithWaitGroup: Wait also waits for a user wait group released ~1 ms after Wait was called
 }
 
 // DecorSpec describes one decorator of a bar (besides the row tag).
